@@ -125,51 +125,62 @@ def main(argv=None):
     H = importlib.import_module(pid)
     ev_path = os.path.join(VERIF, 'evidence', pid + '.json')
     os.makedirs(os.path.dirname(ev_path), exist_ok=True)
-    wd = build.workdir(pid + '_' + tier + ('_r' if replay_path else ''))
-    try:
-        ll, src_sha = build.build_ir(wd, H.TUS, H.SHIMS)
-        so = build.build_native(wd, H.SHIMS, getattr(H, 'NATIVE_TUS', None)) if getattr(H, 'NATIVE', True) else None
-    except build.BuildError as e:
-        print('BUILD-ERROR property=%s\n%s' % (pid, e)); return 2
-    t_build = time.time() - t_start
-
+    # a property's check may consist of several harness modules with different translation units (PARTS); each part is built, explored and
+    # validated on its own, the verdict and the evidence are joint
+    parts = [pid] + list(getattr(H, 'PARTS', []))
     if replay_path:
-        rec = json.load(open(replay_path))
-        ok, text = native_replay(pid, so, rec['obligation'], rec['cex'])
-        print('replay %s: reproduced=%s\n%s' % (replay_path, ok, text)); return 1 if ok else 0
-
-    obs = H.obligations(tier, seed)
-    if only: obs = [o for o in obs if only in o['name']]
-    random.Random(seed).shuffle(obs)
-    obs.sort(key=lambda o: -o.get('cost', 1))          # expensive first
-    results = []
-    ctx = mp.get_context('fork')
-    with ctx.Pool(min(jobs, max(1, len(obs))), initializer=_winit, initargs=(pid, ll, so, tier, seed), maxtasksperchild=None) as pool:
-        # encoder validation runs in the parent meanwhile (own engine instance)
-        it = pool.imap_unordered(_wrun, obs, chunksize=1)
-        nval = 0; val_err = None; native_viol = None
+        rec = json.load(open(replay_path)); parts = [rec.get('part') or pid]
+    results = []; nval = 0; src_sha = {}; t_build = 0.0; part_of = {}; so_of = {}; obs_of = {}
+    for part in parts:
+        P = importlib.import_module(part)
+        tb0 = time.time()
+        wd = build.workdir(part + '_' + tier + ('_r' if replay_path else ''))
         try:
-            _winit(pid, ll, so, tier, seed)
-            lib = ctypes.CDLL(so) if so else None
-            nval = H.validate(_W['E'], lib) if hasattr(H, 'validate') else 0
-        except EncoderMismatch as e:
-            val_err = str(e)
-        except NativeViolation as e:
-            native_viol = e
-        except Exception as e:
-            val_err = 'validation crashed: %s\n%s' % (e, traceback.format_exc()[-1500:])
-        for r in it:
-            results.append(r)
-            if os.environ.get('VERIF_VERBOSE'):
-                print('  [%s] %s paths=%d q=%d %.1fs %s' % (r['status'], r['name'], r['paths'], r['queries'], r['wall'], (r['note'] or '')[:300]), flush=True)
-    if val_err:
-        print('ENCODER-MISMATCH property=%s: %s' % (pid, val_err))
-        write_evidence(ev_path, pid, tier, seed, H, results, nval, src_sha, t_start, t_build, [], [], note='encoder validation failed: ' + val_err)
-        return 2
+            ll, sha = build.build_ir(wd, P.TUS, P.SHIMS)
+            so = build.build_native(wd, P.SHIMS, getattr(P, 'NATIVE_TUS', None)) if getattr(P, 'NATIVE', True) else None
+        except build.BuildError as e:
+            print('BUILD-ERROR property=%s part=%s\n%s' % (pid, part, e)); return 2
+        src_sha.update(sha); t_build += time.time() - tb0; so_of[part] = so
 
-    if native_viol is not None:
-        r = mkres('native/' + native_viol.key, 'violated', note=native_viol.note); r['key'] = native_viol.key; r['cex'] = native_viol.cex; r['native'] = True
-        results.append(r)
+        if replay_path:
+            ok, text = native_replay(part, so, rec['obligation'], rec['cex'])
+            print('replay %s: reproduced=%s\n%s' % (replay_path, ok, text)); return 1 if ok else 0
+
+        obs = P.obligations(tier, seed)
+        if only: obs = [o for o in obs if only in o['name']]
+        random.Random(seed).shuffle(obs)
+        obs.sort(key=lambda o: -o.get('cost', 1))          # expensive first
+        for o in obs: obs_of[(part, o['name'])] = o
+        presults = []
+        ctx = mp.get_context('fork')
+        with ctx.Pool(min(jobs, max(1, len(obs))), initializer=_winit, initargs=(part, ll, so, tier, seed), maxtasksperchild=None) as pool:
+            # encoder validation runs in the parent meanwhile (own engine instance)
+            it = pool.imap_unordered(_wrun, obs, chunksize=1)
+            val_err = None; native_viol = None
+            try:
+                _winit(part, ll, so, tier, seed)
+                lib = ctypes.CDLL(so) if so else None
+                nval += P.validate(_W['E'], lib) if hasattr(P, 'validate') else 0
+            except EncoderMismatch as e:
+                val_err = str(e)
+            except NativeViolation as e:
+                native_viol = e
+            except Exception as e:
+                val_err = 'validation crashed: %s\n%s' % (e, traceback.format_exc()[-1500:])
+            for r in it:
+                presults.append(r)
+                if os.environ.get('VERIF_VERBOSE'):
+                    print('  [%s] %s paths=%d q=%d %.1fs %s' % (r['status'], r['name'], r['paths'], r['queries'], r['wall'], (r['note'] or '')[:300]), flush=True)
+        if native_viol is not None:
+            r = mkres('native/' + native_viol.key, 'violated', note=native_viol.note); r['key'] = native_viol.key; r['cex'] = native_viol.cex; r['native'] = True
+            presults.append(r)
+        for r in presults: r['part'] = part
+        results += presults
+        if val_err:
+            print('ENCODER-MISMATCH property=%s part=%s: %s' % (pid, part, val_err))
+            write_evidence(ev_path, pid, tier, seed, H, results, nval, src_sha, t_start, t_build, [], [], note='encoder validation failed: ' + val_err)
+            return 2
+    def ob_of(r): return obs_of.get((r['part'], r['name']))
     # ---- verdicts
     known = load_known(pid)
     viol = [r for r in results if r['status'] == 'violated']
@@ -181,7 +192,7 @@ def main(argv=None):
         key = r.get('key') or r['name']
         if key in seen_keys: continue
         if r.get('native'): ok, text = True, 'observed on the real build during the concrete validation runs: ' + (r['note'] or '')
-        else: ok, text = native_replay(pid, so, next(o for o in obs if o['name'] == r['name']), r['cex']) if (so and r.get('cex') is not None and hasattr(H, 'replay')) else (None, 'no native replay available for this obligation')
+        else: ok, text = native_replay(r['part'], so_of[r['part']], ob_of(r), r['cex']) if (so_of.get(r['part']) and r.get('cex') is not None and hasattr(importlib.import_module(r['part']), 'replay')) else (None, 'no native replay available for this obligation')
         r['replay'] = dict(reproduced=ok, text=text)
         if ok is False:
             unrepro.append(r); continue
@@ -190,7 +201,7 @@ def main(argv=None):
         if kf is not None:
             known_hits.setdefault(kf['key'], (kf, r)); continue
         path = os.path.join(rdir, hashlib.sha1(key.encode()).hexdigest()[:12] + '.json')
-        json.dump(dict(property=pid, key=key, obligation=next((o for o in obs if o['name'] == r['name']), None), cex=r['cex'], note=r['note'], replay=r['replay']), open(path, 'w'), indent=1, default=str)
+        json.dump(dict(property=pid, part=r['part'], key=key, obligation=ob_of(r), cex=r['cex'], note=r['note'], replay=r['replay']), open(path, 'w'), indent=1, default=str)
         reported.append((r, path))
     write_evidence(ev_path, pid, tier, seed, H, results, nval, src_sha, t_start, t_build, reported, list(known_hits.values()), unrepro=unrepro)
     tot_paths = sum(r['paths'] for r in results); tot_q = sum(r['queries'] for r in results)
